@@ -9,7 +9,7 @@ EXPLANATION = (
     "generated reader(s) and writer (typed HIR, evaluation-order effect extraction with resolved callees) is compared "
     "structurally, branch by branch, with the reference layout computed from the wowm text by an independent parser. "
     "Opcode dispatch tables are compared with the wowm opcodes; wire values may reach stored fields only through "
-    "injective conversions. Every container and every branch is covered, which the captured-packet tests are not."
+    "injective conversions. The hand-written string and packed-guid leaf codecs are interpreted abstractly over every length / mask class. Every container and every branch is covered, which the captured-packet tests are not."
 )
 
 READ_FLOOR = 2930
@@ -80,11 +80,13 @@ def run(ctx):
             ctx.sample({"container": a.name, "scope": p["scope"], "wowm": f"{a.file}:{a.line}", "reference_items": len(ref),
                         "readers": [f[2]["path"] for f in rfs], "writers": [f[2]["path"] for f in wfs]})
     n_opc = opcodes.check_all(ctx)
+    from . import c01_leaf
+    leaf_cases = c01_leaf.run(ctx)
     ctx.rule("lay.read-write-ref", n_read + n_write, floor=READ_FLOOR + WRITE_FLOOR,
              note=f"{n_read} reader and {n_write} writer layouts of {n_containers} containers vs wowm reference ({len(skipped)} non-wire helper structs skipped)")
     ctx.rule("opc.table", n_opc, floor=OPC_FLOOR, note="opcode enum arms / payload types / OPCODE consts / writer delegation")
     ctx.rule("taint.lossless-read", n_read, note=f"wire-read to field conversion chains inspected; {n_lossy} lossy steps seen")
     ctx.analysed.update({"programs": n_containers, "readers": n_read, "writers": n_write, "skipped_non_wire": skipped[:10]})
     ctx.assume("leaf codecs to_le_bytes/from_le_bytes, String::from_utf8, flate2 and std are trusted; byte equality for concrete values follows from layout agreement")
-    ctx.assume("hand-written built-in codecs (UpdateMask, AuraMask, PackedGuid, splines, ...) are named leaves here; their read/write agreement is rule builtin.siblings")
+    ctx.assume("hand-written built-in codecs other than strings and packed guids (UpdateMask, AuraMask, splines, ...) are named leaves here")
     return "translation_validation", EXPLANATION, {}
